@@ -1,4 +1,4 @@
-#!/bin/sh
+#!/bin/bash
 # run the given tier (default thorough) of the given checks one after the other (for `vp run --with-repo`)
 # usage: thorough_all.sh [--tier quick|thorough] [--seed N] ids...
 TIER=thorough; SEED=0
